@@ -294,6 +294,45 @@ def near_misses(s, draw, alphabet='0123456789HhKkMmgGxX .sSwWtTcCjJ:lLyY\n'):
     return s + alphabet[draw(len(alphabet))]
 
 
+_SUP = u'\u2070\u00b9\u00b2\u00b3\u2074\u2075\u2076\u2077\u2078\u2079'
+_SUB = u'\u2080\u2081\u2082\u2083\u2084\u2085\u2086\u2087\u2088\u2089'
+_LETTER_LOOKALIKES = {'s': u'\u017f', 'S': u'\u017f', 'k': u'\u212a', 'K': u'\u212a', 'i': u'\u0131', 'I': u'\u0130',
+                      'x': u'\u00d7', 'X': u'\u00d7', '.': u'\uff0e', ' ': u'\u00a0', 'm': u'\u217f', 'M': u'\u216f',
+                      'c': u'\u217d', 'C': u'\u216d', 'l': u'\u217c', 'L': u'\u216c'}
+
+
+def lookalike_char(ch, draw):
+    """A character that common str predicates / case mappings treat like `ch` (isdigit, isalpha, upper(), isspace) but
+    which is a different code point: superscript / subscript / circled / full-width / Arabic-Indic digits, long s, Kelvin
+    sign, dotless i, Roman-numeral letters, full-width letters, no-break space."""
+    if ch.isdigit() and ch in '0123456789':
+        d = int(ch)
+        opts = [_SUP[d], _SUB[d], chr(0xff10 + d), chr(0x0660 + d), chr(0x1d7ce + d)]
+        if d:
+            opts.append(chr(0x2460 + d - 1))
+        return opts[draw(len(opts))]
+    if ch in _LETTER_LOOKALIKES and draw(2):
+        return _LETTER_LOOKALIKES[ch]
+    if 'A' <= ch <= 'Z':
+        return chr(0xff21 + ord(ch) - 65)
+    if 'a' <= ch <= 'z':
+        return chr(0xff41 + ord(ch) - 97)
+    return _LETTER_LOOKALIKES.get(ch, ch)
+
+
+def lookalikes(s, draw):
+    """s with one, several or all characters replaced by Unicode look-alikes (see lookalike_char)."""
+    if not s:
+        return _SUP[draw(10)]
+    mode = draw(3)
+    if mode == 0:
+        i = draw(len(s))
+        return s[:i] + lookalike_char(s[i], draw) + s[i + 1:]
+    if mode == 1:
+        return ''.join(lookalike_char(c, draw) for c in s)
+    return ''.join(lookalike_char(c, draw) if draw(2) else c for c in s)
+
+
 def ddmin_string(s, still_fails):
     """Delete characters while `still_fails(s)` holds (1-minimal)."""
     changed = True
